@@ -269,7 +269,10 @@ func c10EndToEnd(r *Run) {
 		}
 		obs := c10One(r, table, tableKey(table), order, "", nil, false)
 		referenceCases(r, table, order, obs)
-		if dc == coding.GSM7BitCoding && obs.PanicAt < 0 && len(ps) <= 60 {
+		_, _, _, _, jinfo := judgeFull(table, order, obs)
+		// (a history that holds malformed other traffic is compared leniently by referenceCases; the exact trace from the
+		// composition model is demanded where every segment is well formed)
+		if dc == coding.GSM7BitCoding && obs.PanicAt < 0 && len(ps) <= 60 && !jinfo.lenient {
 			others := make([]string, 0, len(ps)-nOurs)
 			for _, s := range table[nOurs:] {
 				others = append(others, coqSeg(s))
